@@ -239,6 +239,54 @@ fn compute_d3_emulated(amp: u64, r: [u128; 3]) -> Option<U1024> {
     Some(d)
 }
 
+/// emulation of the contract's integer Newton `compute_y_raw` (only to recognise the solver's own
+/// dust exactly in pools too small for the comparison with the independent curve)
+fn compute_y3_emulated(amp: u64, swap_in: u128, no_swap: u128, d: U1024) -> Option<U1024> {
+    if swap_in == 0 || no_swap == 0 || amp == 0 {
+        return None;
+    }
+    let three = U1024::from(3u32);
+    let ann = w(amp as u128 * 3);
+    let mut c = d;
+    c = c * d / (w(swap_in) * three);
+    c = c * d / (w(no_swap) * three);
+    c = c * d / (ann * three);
+    let b = d / ann + w(swap_in) + w(no_swap);
+    let mut y = d;
+    for _ in 0..1000 {
+        let y_prev = y;
+        let num = y * y + c;
+        let den2 = y * U1024::from(2u32) + b;
+        if den2 <= d {
+            return None;
+        }
+        y = num / (den2 - d);
+        let diff = if y > y_prev { y - y_prev } else { y_prev - y };
+        if diff <= U1024::ONE {
+            break;
+        }
+    }
+    Some(y)
+}
+
+/// gross output of a swap exactly as the contract's integer solvers compute it: reserve - y - 1
+fn gross_emulated(amp: u64, reserves: [u128; 3], from: usize, to: usize, amount: u128) -> Option<u128> {
+    let other = 3 - from - to;
+    // the contract passes (source, destination, unswapped): the order matters for the integer divisions
+    let d = compute_d3_emulated(amp, [reserves[from], reserves[to], reserves[other]])?;
+    let y = compute_y3_emulated(amp, reserves[from].checked_add(amount)?, reserves[other], d)?;
+    let rt = w(reserves[to]);
+    if y + U1024::ONE > rt {
+        return None;
+    }
+    let g = rt - y - U1024::ONE;
+    let dg = g.digits();
+    if dg[2..].iter().any(|x| *x != 0) {
+        return None;
+    }
+    Some(dg[0] as u128 | ((dg[1] as u128) << 64))
+}
+
 impl Pool3 {
     pub fn user(&self, i: usize) -> &'static str {
         USERS[i % self.cfg.n_users]
@@ -672,6 +720,8 @@ struct SwapDone {
     /// dust (2 units of D, 2 base units of the ask asset); Some(false): it does not; None: the
     /// comparison did not apply (a reserve below 10^4)
     curve_ok: Option<bool>,
+    /// the gross output is exactly what an emulation of the contract's own integer solvers gives
+    emul_ok: bool,
     ret: u128,
 }
 
@@ -834,7 +884,8 @@ fn do_swap(s: &mut Pool3, ctx: &mut Ctx, actor: usize, from: usize, to: usize, a
             ctx.fail("C14", "third_party_untouched", opname, None, format!("user {u} changed"));
         }
     }
-    Some(SwapDone { ret, curve_ok })
+    let emul_ok = gross_emulated(amp, before.reserves, from, to, amount) == Some(gross);
+    Some(SwapDone { ret, curve_ok, emul_ok })
 }
 
 fn do_provide(s: &mut Pool3, ctx: &mut Ctx, actor: usize, amounts: [u128; 3], slippage: &Option<String>, fault: Fault, opname: &str) -> bool {
@@ -997,9 +1048,12 @@ pub fn apply(s: &mut Pool3, step: &Step, ctx: &mut Ctx) {
                         // dust of one leg valued at the pool's price (in a skewed pool one unit of
                         // the scarce asset is worth many of the abundant one). Where the comparison
                         // did not apply (a reserve below 10^4) the bound is 4 base units.
-                        let legs_dust = d1.curve_ok == Some(true) && d2.curve_ok == Some(true);
-                        let known = if legs_dust || (d1.curve_ok.is_none() || d2.curve_ok.is_none()) && profit <= 4 { Some("D14") } else if allow > 0 && profit <= allow { Some("D18") } else { None };
-                        ctx.fail("C04", "there_and_back", "profit", known, format!("amp {} fees {:?}: {amount} of {from} -> {} of {to} -> {} of {from} (profit {profit})", s.amp_lin(), s.cfg.fees, d1.ret, d2.ret));
+                        // In a pool too small for that comparison (a reserve below 10^4, where integer
+                        // effects dominate) a leg counts as explained when its output is exactly what an
+                        // emulation of the contract's own integer Newton solvers gives.
+                        let leg_ok = |d: &SwapDone| d.curve_ok == Some(true) || (d.curve_ok.is_none() && d.emul_ok);
+                        let known = if leg_ok(&d1) && leg_ok(&d2) { Some("D14") } else if allow > 0 && profit <= allow { Some("D18") } else { None };
+                        ctx.fail("C04", "there_and_back", "profit", known, format!("amp {} fees {:?}: {amount} of {from} -> {} of {to} -> {} of {from} (profit {profit}; legs vs curve {:?}/{:?}, vs solver emulation {}/{})", s.amp_lin(), s.cfg.fees, d1.ret, d2.ret, d1.curve_ok, d2.curve_ok, d1.emul_ok, d2.emul_ok));
                     }
                 }
             }
